@@ -55,6 +55,9 @@ ListenerAt(ep) == {l \in Acceptors : lst[l].listening /\ lst[l].ep = ep}
 Listen(l, ep) == /\ lst' = [lst EXCEPT ![l] = [FreshLst EXCEPT !.ep = ep, !.listening = TRUE,
                                                                 !.aborting = lst[l].aborting]]
                  /\ UNCHANGED <<now, nat, cn, st, sk>>
+\* open + bind without listen(): the endpoint is taken, nobody listens
+BindOnly(l, ep) == /\ lst' = [lst EXCEPT ![l].ep = ep, ![l].listening = FALSE]
+                   /\ UNCHANGED <<now, nat, cn, st, sk>>
 CloseAcceptor(l) == /\ lst' = [lst EXCEPT ![l].listening = FALSE, ![l].ep = None, ![l].pend = <<>>,
                                            ![l].aborting = @ + Len(lst[l].pend)]
                     /\ UNCHANGED <<now, nat, cn, st, sk>>
